@@ -252,4 +252,88 @@ class C10(Prop):
                    "whole-row / whole-column forms of set_style_by_range are not used (they panic before touching the store, see KF-C17)"]
 
 
-PROPS = {"C07": C07(), "C08": C08(), "C09": C09(), "C10": C10(), "C04": C04(), "C12": C12(), "C02": C02(), "C01": C01(), "C05": C05(), "C06": C06(), "C20": C20(), "C19": C19(), "C17": C17(), "C18": C18()}
+class C14(Prop):
+    cmd = "c14"
+    cases = {"quick": 96, "thorough": 2400}
+    rule = ("passwords (empty, ASCII, BMP, non-BMP, 255 chars, random printable) x package sizes (0, 1, 15-17, 31-33, 4095-4097, 8191-8193, n*4096 +/- 1, random up to 70 kB) "
+            "through helper::crypt::encrypt and set_password (arbitrary bytes), and real workbooks through write_with_password(_light) incl. two saves of one workbook; distinct by (api, password, case)")
+    assumptions = ["oracle: monitors/offcrypto.py (own CFB reader, own AES-CBC, hashlib SHA-512 / HMAC; MS-OFFCRYPTO 2.3.4.10-15)",
+                   "for workbook saves the plaintext reference is write_writer's output for the same workbook (compared byte-wise, or member-wise when zip bytes differ)",
+                   "freshness: key salt, package salt, package key and verifier input must be pairwise distinct over all files of the run"]
+
+    def post(self, v, res, out, tier, seed):
+        sys.path.insert(0, os.path.join(vlib.VERIF, "monitors"))
+        import c14_check
+        n, nsizes, randoms, groups = c14_check.check(out)
+        v.observations = n
+        v.counters["files_decrypted"] = n
+        v.counters["distinct_package_sizes"] = nsizes
+        for k, val in randoms.items():
+            v.counters["distinct_" + k] = val
+        for sig, (cnt, exs) in groups.items():
+            v.add_divergence(sig, [], cnt, exs)
+
+
+class C15(Prop):
+    cmd = "c15"
+    cases = {"quick": 120, "thorough": 3000}
+    rule = ("passwords (empty, ASCII, non-BMP, CJK, 240+ chars, XML specials) x sheet / workbook / revisions protection, on fresh objects and on objects that carried a legacy raw password, "
+            "one or two calls, observed in the model and after a save/reload cycle; distinct by (kind, password, case)")
+    assumptions = ["oracle: hashlib recomputation of the ECMA-376 spin hash; byte scan of every saved part for legacy password attributes and (for passwords of 8+ chars) the clear password in UTF-8 / UTF-16LE"]
+
+    def post(self, v, res, out, tier, seed):
+        sys.path.insert(0, os.path.join(vlib.VERIF, "monitors"))
+        import c15_check
+        n, nsalts, groups = c15_check.check(out)
+        v.observations = n
+        v.counters["hashes_recomputed"] = 2 * n
+        v.counters["distinct_salts"] = nsalts
+        for sig, (cnt, exs) in groups.items():
+            v.add_divergence(sig, [], cnt, exs)
+
+
+class C13(Prop):
+    level = "fault_enumeration"
+    rule = ("fault points = (api in xlsx / xlsx_light / csv / password) x (workbook size tiny / small / edge-of-8KiB / large) x (EFBIG at byte offset k via RLIMIT_FSIZE: every "
+            "offset for outputs <= 12 kB in the thorough tier, boundaries + random sample otherwise; LD_PRELOAD shim failing the j-th write with ENOSPC/EIO/EDQUOT with and without a "
+            "short write, rename, open) x (destination pre-existing / absent); plus every write-call index of caller-supplied sinks (with/without partial progress), SIGKILL at random "
+            "instants of alternating saves, and a concurrent reader of the destination; distinct = distinct (api, size, injector, point, pre-existing)")
+    assumptions = ["oracle: outcome classifier (reported result, destination bytes vs old bytes / byte-identical healthy new file, decrypt check for password files)",
+                   "a leftover temporary sibling after a failure is counted but is not a violation",
+                   "kill instants and observer reads are samples, not an enumeration"]
+
+    def run(self, v, tier, seed):
+        sys.path.insert(0, os.path.join(vlib.VERIF, "monitors"))
+        import c13_check
+        out = vlib.workdir("c13")
+        res = vlib.run_uvh("c13sink", os.path.join(out, "sink"), seed, tier)
+        v.add_result(res, prefix="sink.")
+        try:
+            cx = c13_check.check(out, tier, seed)
+        except RuntimeError as e:
+            raise vlib.Inconclusive(str(e))
+        v.evaluations += cx.points
+        v.observations += cx.points
+        v.distinct += len(cx.distinct)
+        v.counters.update(cx.counters)
+        v.samples = cx.samples + v.samples
+        v.inconclusive += [{"why": w} for w in cx.inconclusive]
+        v.inconclusive_count += len(cx.inconclusive)
+        for sig, (cnt, exs) in cx.groups.items():
+            v.add_divergence(sig, [], cnt, exs)
+        v.rule = self.rule
+        v.assumptions = list(self.assumptions)
+
+    def replay(self, path):
+        sys.path.insert(0, os.path.join(vlib.VERIF, "monitors"))
+        import c13_check
+        ex = json.load(open(path))
+        cx = c13_check.replay(vlib.workdir("c13-replay"), ex.get("replay_fault", {}))
+        n = sum(c for c, _ in cx.groups.values())
+        for sig, (cnt, exs) in cx.groups.items():
+            print(sig, exs[0]["detail"])
+        print("replay: %d divergence(s) reproduced" % n)
+        return 1 if n else 0
+
+
+PROPS = {"C13": C13(), "C15": C15(), "C14": C14(), "C07": C07(), "C08": C08(), "C09": C09(), "C10": C10(), "C04": C04(), "C12": C12(), "C02": C02(), "C01": C01(), "C05": C05(), "C06": C06(), "C20": C20(), "C19": C19(), "C17": C17(), "C18": C18()}
